@@ -30,7 +30,7 @@ without reference to what the generators draw). Wave 4 ({waves.get('4',0)} chang
 purpose and is marked as such: those agents were additionally told, in prose, which
 configurations, shapes, sizes and fault kinds the generators draw and were asked for changes such
 a checker would still miss - they are adversarial to the machinery, not independent of it. Wave 5
-({waves.get('5',0)} changes) and waves 6 to 17 ({waves.get('6',0)}+{waves.get('7',0)}+{waves.get('8',0)}+{waves.get('9',0)}+{waves.get('10',0)}+{waves.get('11',0)}+{waves.get('12',0)}+{waves.get('13',0)}+{waves.get('14',0)}+{waves.get('15',0)}+{waves.get('16',0)}+{waves.get('17',0)} changes) went back to the property text alone (plus the list of earlier
+({waves.get('5',0)} changes) and waves 6 to 18 ({waves.get('6',0)}+{waves.get('7',0)}+{waves.get('8',0)}+{waves.get('9',0)}+{waves.get('10',0)}+{waves.get('11',0)}+{waves.get('12',0)}+{waves.get('13',0)}+{waves.get('14',0)}+{waves.get('15',0)}+{waves.get('16',0)}+{waves.get('17',0)}+{waves.get('18',0)} changes) went back to the property text alone (plus the list of earlier
 changes to avoid).
 "yes" = caught by the quick tier of the machinery as it was when the change arrived; "after
 strengthening" = first missed, then caught after the generator or oracle was extended (the last
@@ -92,7 +92,10 @@ start date with a time of day, tickers that differ only in case, later calls of 
 the same decorator twice, a moving average replaced after construction, pointer elements in
 Filter, periods kept in a slice, a factory-built Tiingo repository); wave 17 four more value and
 shape classes (time values held in a zone other than UTC, an untagged time field after a tagged
-one, operands copied by one Duplicate, SMMA periods in either order).
+one, operands copied by one Duplicate, SMMA periods in either order); wave 18 one defect of a
+stub (the simulated SQL driver had no transactions) and value classes (a bar that is not a
+number, zero members left out by the simulated Tiingo server, old file time stamps, the negative
+zero, divisors that are no powers of two, early years, Appends of more than 1000 snapshots).
 
 | seeded change | wave | what it does | needs | caught at once? | check and verdict |
 |---|---|---|---|---|---|
